@@ -49,8 +49,11 @@ func ParseComment(token antlr.Token, filename string) *TODO {
 			todo.Assignee = todo.Assignee[1 : len(todo.Assignee)-1]
 		}
 
-		// Append text
-		todo.Message = handleForMultipleLine(t)
+		// Append text; only a block comment has a terminator and continuation-line decoration
+		if strings.HasPrefix(strings.TrimSpace(comment), "/*") {
+			t = handleForMultipleLine(t)
+		}
+		todo.Message = t
 
 		return todo
 	}
